@@ -44,6 +44,7 @@ type Run struct {
 	Notes        []string                  `json:"notes"`
 	Assumptions  []string                  `json:"assumptions"`
 	MaxSamples   int                       `json:"-"`
+	nviol        int                       // violations observed (also those not listed because their signature is already listed 3 times)
 	start        time.Time
 }
 
@@ -116,6 +117,7 @@ func (r *Run) Seen(set, value string) {
 func (r *Run) Violate(sig, what string, detail any) {
 	r.mu.Lock()
 	defer r.mu.Unlock()
+	r.nviol++
 	if len(r.Violations) >= 400 {
 		return
 	}
@@ -136,7 +138,7 @@ func (r *Run) Violate(sig, what string, detail any) {
 func (r *Run) NumViolations() int {
 	r.mu.Lock()
 	defer r.mu.Unlock()
-	return len(r.Violations)
+	return r.nviol
 }
 
 // Inconc records an inconclusive case.
